@@ -352,5 +352,48 @@ def run(rep: Report, tier: str) -> None:
                                             f"that agree on that key but differ elsewhere (same id, other version / agency) get the components of the first one"))
     rep.instance("R27.3", "process-global stores on the conversion path", nontrivial=False, sample={"stores examined": nglob, "functions on the path": len(on_path)})
     rep.analysed = {"dtype_keys": len(dmap), "pysdmx_datatype_members": len(dtype_enum), "roles": sorted(rmap), "docs_types": len(doc_types)}
+    # ---- R27.4: the loader takes every mapped structure as it is: component for component, whatever the combination of types ----
+    rep.rule("R27.4", "_load_dataset_from_structure evaluated on structures with every ordered pair of VTL types on two identifiers (plus a measure and an attribute): the dataset "
+                      "comes back with the same components, roles, types and nullability - the loader adds no precondition of its own on the combination")
+    from sa import structmodel as _sm4
+    from sa.e6 import Interp as _I4, Raised as _R4, Unmodelled as _U4
+    _M4 = _sm4.Model(P)
+    fl = P.func("vtlengine.API._InternalApi._load_dataset_from_structure")
+    tnames = list(_I4(P).eval(ast.parse("list(SCALAR_TYPES)", mode="eval").body, {}, fl))
+    if len(tnames) < 8:
+        raise AnalysisError(f"R27.4: SCALAR_TYPES has only {len(tnames)} entries (anchor changed)")
+    n4 = 0
+    bad4: Dict[str, str] = {}
+    for t1 in tnames:
+        for t2 in tnames:
+            if t1 in ("Null",) or t2 in ("Null",):
+                continue
+            st = {"datasets": [{"name": "DS_1", "DataStructure": [{"name": "Id_1", "role": "Identifier", "type": t1, "nullable": False}, {"name": "Id_2", "role": "Identifier", "type": t2, "nullable": False},
+                                                                  {"name": "Me_1", "role": "Measure", "type": t1, "nullable": True}, {"name": "At_1", "role": "Attribute", "type": t2, "nullable": True}]}]}
+            it = _I4(P, externals={"_validate_json": lambda *a, **k: None, "Dataset": _M4.mk_dataset, "Scalar": lambda **kw: kw,
+                                   "VTL_Component": lambda **kw: _sm4.MComp(kw["name"], kw["role"], kw["data_type"], kw["nullable"])}, max_steps=20000)
+            it.globals_written["vtlengine.API._InternalApi.schema"] = None
+            try:
+                r4 = it.call(fl, {"structures": st})
+                d4 = r4[0]["DS_1"]
+                got4: Any = [(k, c.role, getattr(c.data_type, "short", str(c.data_type)), c.nullable) for k, c in d4.components.items()]
+            except _R4 as r:
+                got4 = f"raises {getattr(r.exc, 'kind', '?')} {getattr(r.exc, 'code', '')} {str(getattr(r.exc, 'kwargs', ''))[:90]}"
+            except _U4 as e:
+                raise AnalysisError(f"R27.4: the structure loader is outside the evaluator's language: {e}")
+            n4 += 1
+            want4 = [("Id_1", "Identifier", None, False), ("Id_2", "Identifier", None, False), ("Me_1", "Measure", None, True), ("At_1", "Attribute", None, True)]
+            ok = isinstance(got4, list) and [(a, b, d) for a, b, _c, d in got4] == [(a, b, d) for a, b, _c, d in want4] and got4[0][2] == got4[2][2] and got4[1][2] == got4[3][2] \
+                and (t1 == t2) == (got4[0][2] == got4[1][2])
+            if n4 <= 2:
+                rep.instance("R27.4", f"pair/{t1}+{t2}", nontrivial=True, sample={"types": [t1, t2], "loaded": got4 if isinstance(got4, str) else [list(x) for x in got4]})
+            if not ok:
+                bad4.setdefault("rejected" if isinstance(got4, str) else "altered", f"identifiers of type ({t1}, {t2}): {got4}")
+    rep.instance("R27.4", "type-pairs", nontrivial=True, sample={"pairs": n4})
+    for k4, t4 in bad4.items():
+        rep.add(Finding("R27.4", f"R27.4/{k4}", fl.module.rel, fl.node.lineno, fl.qualname,
+                        f"a structure with {t4}: the documented mapping gives one VTL component per SDMX component for any combination of types; a precondition of some operators "
+                        f"(e.g. one time identifier) is not a precondition of the dataset, and the identity script on such a structure can no longer run"))
+    rep.floor("R27.4 type pairs", n4, 60)
     rep.assumptions = ["pysdmx enums are read from the installed package source (members = class-level NAME = 'value' assignments)",
                        "docs/data_structures.rst is the oracle for the mapping"]
